@@ -33,6 +33,9 @@ def check(model, tier):
     from ..rules import foldeval as _foldeval
 
     _foldeval.r13_5_folding(ctx)
+    from ..rules import reqeval as _reqeval
+
+    _reqeval.r13_6_requirements(ctx)
     from ..rules.foundation import run_foundation
 
     run_foundation(ctx, "13")
